@@ -29,7 +29,11 @@ RULE = ("chain runners: every chain script below runs under waterfall.Sche, the 
         "over the 7 behaviours: three chains one after the other (Sche x3, Do() x3, and a rotating pair of different runners) and two chains overlapped "
         "(Sche+Sche, Do()+Sche), all driven to completion; random scripts with 1-2 lists and 2-5 chains under random runners started at random moments; "
         "concurrent: 1-4 schedulers with the real Handler x 1-6 chains each, all over one slice resp. one Builder per scheduler (OConcS), every chain must "
-        "be exactly spec(tasks). PANIC VALUES: a panicking closure panics with a string or with one of 15 values (KPanicV: error pointer, int, struct error, real nil "
+        "be exactly spec(tasks). TEARDOWN (OConcStop): consumer = Sche.Handler / a REAL RunService / the RunService selector loop on a harness goroutine; a first closure holds the consumer, "
+        "0, 1, 3, 40, 900 and a random number of closures are queued behind it, then Stop (RunService.Stop) is called by a foreign goroutine while the consumer is inside the holding "
+        "closure, or by that closure itself, then 0-4 Posts that must fail; accepted: the closures that ran are a prefix of the queued ones, every one on the consumer goroutine "
+        "(goroutine id from runtime.Stack, the stopper's and the posters' ids are foreign) and never while another closure is running (enter/exit counter), every later Post returned nil. "
+        "PANIC VALUES: a panicking closure panics with a string or with one of 15 values (KPanicV: error pointer, int, struct error, real nil "
         "dereference / index out of range, panic(nil), values whose Error() / String() panic, and the non-comparable ones: slice-typed error, raw slice, map, struct "
         "holding a slice, func, array of slices); every ordered pair of the 16, scripted, with returning closures between and behind; on Sche.Handler, the gated "
         "Handler and the selector loop of a RunService (OConc mode 5: MultiSelector + FuncSelector over GetChanTask calling DoTask, as RunService.Start wires it, on a "
@@ -45,7 +49,7 @@ TRUSTED_BASE = [
     "Go harness harness/c15 (consumer = one receive from GetChanTask + DoTask per OStep; blocked posters detected as goroutine state 'chan send' via runtime.Stack), bin/check.py JSON->Coq term printer",
     "modelled not verified: sync.Mutex makes Mgr.GetSche / DelSche atomic (the registry theorem is about sequential histories; atomicity is MEASURED by the registry-race block)",
     "modelled not verified: Go buffered channel (FIFO, send blocks when full, send on / close under a blocked sender panics, receive from a closed channel drains the buffer), select in Handler (may pick either ready case), recover",
-    "MEASURED, not proved (partial): every closure / task / final ran on the consumer goroutine (goroutine id from runtime.Stack compared with the consumer's; RunService: with the first closure's and against all poster ids); real blocking of Post at 999 queued tasks; concurrent runs compared only through per-poster / per-chain projections",
+    "MEASURED, not proved (partial; in the model the consumer is the only thread that executes, C15_only_consumer_executes): every closure / task / final ran on the consumer goroutine (goroutine id from runtime.Stack compared with the consumer's; RunService: with the first closure's and against all poster ids); real blocking of Post at 999 queued tasks; concurrent runs compared only through per-poster / per-chain projections",
     "chain scripts are tied to the chain machine by sharing run_item/take_pool and by this correspondence run, not by a refinement proof; scheduler scripts are proved to be runs of the transition system (C15_script_reachable)",
     "hand translation RunTaskIdService.AllocId (atomic.AddUint32, no wrap handling) + Post (AllocId before the send) + DoTask (id not consulted) -> Model.v Part 1i; the verif-tagged hook utils/sche/verif_hooks.go (hooks/C15-hook-taskid.patch) positions / reads the real counter; id VALUES are displayed but not compared (the property does not speak about them)",
     "hand translation 'Chain.tasks is the caller's slice, read at every tryExec, never written' -> Model.v Part 2s (cstep_mem returns the array as found); shared-list scripts attribute the events of shared functions to chains through a harness-side shadow of the queue (which chain each queued closure was posted for - chain scripts never block) and, in OConcS, through the consumer goroutine the event happened on",
@@ -55,7 +59,7 @@ ASSUMPTIONS = [
     "Simple and ExecAndWait have no recover: a task panic reaches the caller (Simple: after the nested rest of the chain already ran; ExecAndWait: final never runs). ExecAndWait with a task that calls back twice deadlocks on its own channel (C15_double_callback_wait); its curArgs/curErr are unsynchronised and only exercised sequentially",
     "not reachable with the shipped configuration and therefore not driven: the selfBlockDefend branch of Sche.Post (7 statements), Mgr.hasSche (unexported, tests only); RunService.SetValue panics (vars map is never made) - outside this property",
     "Stop is called at most once (a second close panics in Go); closures do not Post to their own scheduler when its queue is full (self-deadlock stated in the comment of Sche.Post) - chain scripts stay below 899 queued items",
-    "after Stop the consumer may leave with tasks still queued (Handler's select; RunService.Stop): those closures never run - 'exactly once' is claimed for schedulers that are not stopped, 'at most once' always",
+    "teardown, decided from the property text ('posted to a running scheduler ... executed exactly once on the scheduler's consumer goroutine'; Stop does not wait): a closure still queued when Stop is called is run by the consumer before it ends, or never (Handler's select / the RunService selector may pick the close channel first) - never by the goroutine that calls Stop and never after the consumer has ended (C15_only_consumer_executes); 'exactly once' is claimed for schedulers that are not stopped, 'at most once, in order, on the consumer, one at a time' always",
     "a waterfall task that calls its callback twice is outside the property: the chain has no guard and final can run twice (C15_double_callback, C15_callbacks_conserved)",
     "selfBlockDefend = false (the shipped value)",
     "a real RunService starts its loop on a goroutine of its own (go r.loop()), which no harness can guard: panicking closures reach the RunService path only through OConc mode 5, the same selector wiring (MultiSelector / FuncSelector / DoTask) with the loop `for running { HandleOnce() }` written in the harness; RunService.loop's own statements (analysisRunning) run in modes 2-4 without panicking closures",
